@@ -1,4 +1,5 @@
-//! Verification hook (only compiled with `--cfg crux_verif`): named schedule points.
+//! Verification hooks (only compiled with `--cfg crux_verif`): named schedule points, and an
+//! optional recorder of executor events.
 //!
 //! `point(name)` is a no-op unless a controller has been installed; a controller can park the
 //! calling thread to force a chosen interleaving of concurrent callers. Points are placed where
@@ -22,5 +23,40 @@ pub fn point(name: &'static str) {
         .clone();
     if let Some(controller) = controller {
         controller(name);
+    }
+}
+
+/// Executor events (`ev`) are appended, one JSON object per line, to the file named by the
+/// environment variable `CRUX_VERIF_TRACE`; without it `ev` does nothing. `c` identifies the
+/// command (the address of its shared waker cell), the other fields depend on the event.
+static TRACE: std::sync::OnceLock<Option<std::sync::Mutex<std::fs::File>>> =
+    std::sync::OnceLock::new();
+static NEXT_THREAD: std::sync::atomic::AtomicUsize = std::sync::atomic::AtomicUsize::new(1);
+
+thread_local! {
+    static THREAD: usize = NEXT_THREAD.fetch_add(1, std::sync::atomic::Ordering::Relaxed);
+}
+
+pub fn ev(name: &'static str, c: usize, a: usize, b: usize, d: usize) {
+    use std::io::Write;
+
+    let trace = TRACE.get_or_init(|| {
+        std::env::var_os("CRUX_VERIF_TRACE").and_then(|path| {
+            std::fs::OpenOptions::new()
+                .create(true)
+                .append(true)
+                .open(path)
+                .ok()
+                .map(std::sync::Mutex::new)
+        })
+    });
+    if let Some(file) = trace {
+        let th = THREAD.with(|t| *t);
+        let line = format!(
+            "{{\"th\":{th},\"e\":\"{name}\",\"c\":{c},\"a\":{a},\"b\":{b},\"d\":{d}}}\n"
+        );
+        if let Ok(mut file) = file.lock() {
+            let _ = file.write_all(line.as_bytes());
+        }
     }
 }
